@@ -1,2 +1,6 @@
 pub mod neighbour;
+#[cfg(not(smartcore_verif))]
 pub(crate) mod sort;
+#[cfg(smartcore_verif)]
+#[allow(missing_docs)]
+pub mod sort;
